@@ -13,6 +13,7 @@ lib.repo_env.shim()
 from lib import e4, e4_corpus, e5, e7
 from guppylang_internals.error import GuppyError
 from crosshair.tracers import NoTracing
+from crosshair.core import realize
 
 KIND = os.environ.get("VERIF_E4_KIND", "c03")
 N = int(os.environ.get("VERIF_E4_N", "20"))
@@ -116,6 +117,8 @@ def h_equiv7(which: int, x: int, y: int, r0: int, r1: int, r2: int, r3: int, r4:
             entry, k = ENTRIES[i], i
     if entry is None:
         return True
+    if "# enumerate: x" in entry[0].src:
+        x = realize(x)
     if entry[3]:
         LAST_DETAIL = f"program #{BATCH[k]} ({entry[0].name}): the emitted HUGR leaves possibly side-effecting nodes unordered (region, node, node): {entry[3][:4]}\n{entry[0].src}"
         return False
